@@ -88,6 +88,12 @@ def body(ctx):
                         ops=[dict(api='push', src='dir', files=names, cwd='elsewhere', path='/sdcard/d', mtime=9), dict(api='shell', decode=False, cmd='after', chunks=[b'ok'.hex()])]))
     for md_, size_ in ((2 * 1024 * 1024, 1500000), (3 * 1024 * 1024, 3200000)):
         fam.append(dict(seed=ctx.seed + 820 + len(fam), maxdata=md_, rid='plus', frag='whole', ops=[dict(api='push', path='/big', size=size_, src='bytesio', mtime=3)]))
+    # commands with a whole-command limit on a transport whose every call takes time: wherever the limit expires - between two WRITEs, while
+    # the device's CLOSE is being read - a CLOSE that was read is answered
+    for j, T in enumerate((0.05, 0.1, 0.15, 0.2, 0.25, 0.3, 0.35, 0.4, 0.45, 0.5, 0.6, 0.8)):
+        fam.append(dict(seed=ctx.seed + 900 + j, maxdata=4096, rid='plus', frag='whole', tick=0.05, ambient=False,
+                        ops=[dict(api=('shell', 'exec_out')[j % 2], decode=False, cmd='slow%d' % j, chunks=[b'a'.hex(), b'b'.hex()][:1 + j % 2], timeout_s=T, read_timeout_s=10.0),
+                             dict(api='shell', decode=False, cmd='after', chunks=[b'ok'.hex()])]))
     specs = fam + specs
     corpus = scen.run_corpus(specs)
     traces = [c[3] for c in corpus]
